@@ -56,7 +56,7 @@ Print Assumptions C03_yank_capacity.
    character boundary: it returns (no slice off a boundary, no underflow, no
    unwrap of None: the model's Panic is unreachable) and the cursor is on a
    boundary again. Hypotheses on the segmentation: it is a partition into
-   non-empty clusters. The six operations that take raw byte offsets carry the
+   non-empty clusters. The five operations that take raw byte offsets carry the
    precondition the crate states for them (op_pre: offsets on boundaries, ordered). *)
 Theorem C03_all_total_wf : forall (seg : str -> list str),
   (forall s, concat (seg s) = s) -> (forall s g, In g (seg s) -> g <> []) ->
